@@ -229,7 +229,7 @@ def print_assumptions(prop_file):
     return res, ""
 
 
-def run_harness(vharness, cmd, cases, timeout=1200, env=None, extra_args=(), stall=25):
+def run_harness(vharness, cmd, cases, timeout=1200, env=None, extra_args=(), stall=25, confirm=True):
     """Run cases through the harness, reading results as they come.  A case that produces no
     answer within `stall` seconds (the process can be wedged beyond its own timers) is recorded as
     st=timeout, one on which the process dies as st=crash; the rest continue in a fresh process."""
@@ -317,6 +317,17 @@ def run_harness(vharness, cmd, cases, timeout=1200, env=None, extra_args=(), sta
         head = last_err.strip().splitlines()[0][:200] if last_err.strip() else ""
         outs[rest[0].get("id")] = {"id": rest[0].get("id"), "st": "crash", "msg": head, "site": "unknown"}
         todo = rest[1:]
+    if confirm:
+        # a wedge or a death seen by the watchdog is believed only if the case does it again alone in a fresh process
+        # (a loaded machine can stall a process for tens of seconds; a genuine hang or crash is deterministic here)
+        again = [c for c in cases if (outs.get(c.get("id")) or {}).get("st") in ("timeout", "crash")
+                 and "budget exhausted" not in ((outs.get(c.get("id")) or {}).get("msg") or "")]
+        for c in again[:40]:
+            o2, _, _ = run_harness(vharness, cmd, [c], timeout=4 * stall + 60, env=env, extra_args=extra_args, stall=2 * stall, confirm=False)
+            r = o2.get(c.get("id"))
+            if r is not None and r.get("st") not in ("timeout", "crash"):
+                r["first_attempt"] = outs[c.get("id")].get("st")
+                outs[c.get("id")] = r
     return outs, last_rc, last_err
 
 
